@@ -33,6 +33,7 @@ ALPHA = [
     (R2, None, 1), (R1, (("A", 2),), 1), (None, None, 1), (R3, None, F(3, 2)), (None, (("A", 1), ("B", F(1, 2))), 1),
     (None, (("B", F(1, 2)), ("A", 1)), 2),  # same scores as the previous entry, other key order
     (R2, None, F(1, 999983)), (R2, None, F(5, 999979)),  # same content as entry 5; the exact sum has a denominator near 10**12
+    (R2, (('C', 1),), 1),  # ranked and scored, the scores naming a candidate the ranking does not list
 ]
 
 
@@ -53,7 +54,7 @@ def build_cases(tier, seed):
     _CASES = cs
     meta = {
         "family": f"ballots: {len(RANKINGS)} rankings x {len(SCORES)} score dicts x {len(WEIGHTS)} weights x id x voter_set (all combinations); "
-                  f"profiles: every sequence of length <= {maxlen} over a 13-ballot alphabet mixing ranked, scored, ranked+scored and empty ballots "
+                  f"profiles: every sequence of length <= {maxlen} over a 14-ballot alphabet mixing ranked, scored, ranked+scored and empty ballots "
                   "(i.e. every multiset in every order); == and + on all pairs of sequences of length <= 2; duplicate candidate tuples",
         "assumptions": ["runs with VOTEKIT_VERIF unset (no hook)",
                         "profile equality is judged on positive-weight contents",
